@@ -2,10 +2,12 @@
 From BV Require Import Base.Prelude Model.Block Model.ForkDB Model.Forkable Model.ForkableLookups
   Model.Burst Model.Hub Model.CursorResolver Model.Joining
   Spec.Consumer Spec.Universe Check.Burst_Check Check.C07_Check Spec.C06_Spec Spec.C07_Spec Spec.C09_Spec
-  Spec.C07_Compose_Spec Proofs.C07_ComposeCheck Proofs.C07_Compose Proofs.C07_ComposeCursor Proofs.C07_ComposeCursorAll Proofs.C07_ComposeTarget Proofs.C07_FullRefuted Proofs.C07_FilesFinal.
+  Spec.C07_Compose_Spec Spec.C07_Unfixed_Spec Proofs.C07_ComposeCheck Proofs.C07_Compose Proofs.C07_ComposeCursor Proofs.C07_ComposeCursorAll Proofs.C07_ComposeTarget Proofs.C07_FullRefuted Proofs.C07_FilesFinal.
 Local Open Scope N_scope.
 
-(* number mode, default filter, no stop block: hub_agrees of C07_seamless_full discharged from the world *)
+(* number mode, default filter, no stop block: hub_agrees of C07_seamless_full discharged from the world
+   (hub of a hub run over the universe, canon a run of it, eventual tip); no agreement hypothesis between files and
+   hub is left since the join is made on identity *)
 Theorem c07_seamless_num : C07_seamless_num.
 Proof. exact c07_seamless_num_proof. Qed.
 Print Assumptions c07_seamless_num.
@@ -39,13 +41,15 @@ Theorem c07_seamless_full_refuted : ~ C07_seamless_full.
 Proof. exact c07_seamless_full_refuted_proof. Qed.
 Print Assumptions c07_seamless_full_refuted.
 
-(* files_agree cannot be dropped from c07_seamless_num: a world meeting every other hypothesis whose delivered
-   sequence breaks the discipline (the join is by block number, not by block id) *)
-Theorem c07_files_agree_needed : C07_files_agree_needed.
-Proof. exact c07_files_agree_needed_proof. Qed.
-Print Assumptions c07_files_agree_needed.
+(* BEFORE the fix "join on identity" the join was made on the block number: with every hypothesis of
+   c07_seamless_num the old file phase (Spec/C07_Unfixed_Spec.v) delivers a sequence that breaks the discipline;
+   the fixed model behaves differently on that input (and, by c07_seamless_num, correctly) *)
+Theorem c07_join_by_number_refuted : C07_join_by_number_refuted.
+Proof. exact c07_join_by_number_refuted_proof. Qed.
+Print Assumptions c07_join_by_number_refuted.
 
-(* files_agree follows from the more familiar "every merged block is at or below the ready hub's LIB" *)
+(* files_agree (the hypothesis the join by number needed; no longer used) follows from "every merged block is at
+   or below the ready hub's LIB" *)
 Theorem c07_files_final_agree : C07_files_final_agree.
 Proof. exact c07_files_final_agree_proof. Qed.
 Print Assumptions c07_files_final_agree.
@@ -75,7 +79,7 @@ Example c07_compose_nonvacuous_hyps :
   wf_b cx_U = true /\ lib_ok_b LNone cx_U = true /\
   hub_of_universe cx_U cx_c cx_w /\
   chain_ok cx_canon /\ incl cx_canon cx_U /\
-  eventual_tip cx_c cx_w cx_canon /\ files_agree cx_c cx_w cx_merged /\
+  eventual_tip cx_c cx_w cx_canon /\
   j_mode cx_c = 0 /\ j_filter cx_c = 0 /\ j_stop cx_c = 0 /\ 0 < j_bundle cx_c /\
   Forall (fun b => bnum b < file_bound) cx_merged /\
   (exists b, In b cx_canon /\ bnum b = run_start cx_c cx_w).
@@ -94,7 +98,6 @@ Proof.
       repeat (constructor; [cbn; intros H; repeat (destruct H as [H|H]; [discriminate|]); exact H|]). constructor. }
   split; [intros b Hb; unfold cx_U; apply in_or_app; left; exact Hb|].
   split; [apply eventual_tip_b_sound; vm_compute; reflexivity|].
-  split; [apply files_agree_b_sound; vm_compute; reflexivity|].
   split; [reflexivity|]. split; [reflexivity|]. split; [reflexivity|]. split; [reflexivity|].
   split.
   { apply Forall_forall. intros b Hb.
@@ -126,7 +129,7 @@ Definition cx_cc : jcfg := mkJ 2 0 10 1 0 (Some cx_cu) 0 0 0.
 
 Example c07_compose_nonvacuous_cursor :
   hub_of_universe cx_U cx_cc cx_w /\
-  eventual_tip cx_cc cx_w cx_canon /\ files_agree cx_cc cx_w cx_merged /\
+  eventual_tip cx_cc cx_w cx_canon /\
   j_mode cx_cc = 1 /\ j_cursor cx_cc = Some cx_cu /\ j_filter cx_cc = 0 /\ j_stop cx_cc = 0 /\ 0 < j_bundle cx_cc /\
   (h_ready (w_hub cx_w) = true -> forall evs, blocks_from_cursor (h_f (w_hub cx_w)) cx_cu <> BOk evs) /\
   from_num (rn (cu_lib cx_cu)) cx_canon = cx_b 6 :: map cx_b [7;8;9;10;11;12;13;14;15;16;17;18;19;20] /\
@@ -139,7 +142,6 @@ Proof.
   destruct c07_compose_nonvacuous_hyps as (_ & _ & Hhub & _ & _ & _ & _ & _).
   split; [exact Hhub|].
   split; [apply eventual_tip_b_sound; vm_compute; reflexivity|].
-  split; [apply files_agree_b_sound; vm_compute; reflexivity|].
   split; [reflexivity|]. split; [reflexivity|]. split; [reflexivity|]. split; [reflexivity|]. split; [reflexivity|].
   split.
   { intros _ evs. assert (E : blocks_from_cursor (h_f (w_hub cx_w)) cx_cu = BErr) by (vm_compute; reflexivity).
